@@ -279,6 +279,7 @@ PROGRAMS = [
     ("loop_swap", "def f(a: int, b: int) -> int:\n    x = a\n    y = 7\n    z = 1\n    for i in range(b):\n        x, y = y, x\n        z = z + x\n    return x * 10000 + y * 100 + z\n"),
     ("loop_rotate_fib", "def f(a: int, b: int) -> int:\n    x = 0\n    y = 1\n    z = a\n    i = 0\n    while i < b:\n        x, y, z = y, z, x + y\n        i = i + 1\n    return x * 10000 + y * 100 + z\n"),
     ("loop_acc_mul", "def f(a: int, b: int) -> int:\n    p = 1\n    i = 0\n    while i < b:\n        p = p * 3 + a\n        i += 1\n    return p\n"),
+    ("for_target_assigned", "def f(a: int, b: int) -> int:\n    s = 0\n    for i in range(b):\n        if i == a:\n            i = i + 2\n        s = s + i\n    return s * 100 + b\n"),
 ]
 
 
